@@ -34,6 +34,12 @@ def probes(ctx):
                           f"({cs}): no polynomial work bound",
                   "identity": "exponential-work:unmemoised-rule-alternatives",
                   "replay_payload": {"property": "C12", "grammar": 'd = "a" d / "a" d / "a"', "inputs": d["work_ns"], "calls": cs}})
+    for u in (d.get("long_sources") or {}).get("unexpected", []):
+        v.append({"what": f"{u['call']} of rule {u['rule']} on a source of {u['length']} characters ({u['content']}) raised {u['raised']} "
+                          "(only ParseError / GrammarError are documented)",
+                  "identity": f"long-source:{u['rule']}:{u['length']}:{u['content']}:{u['call']}:{u['raised']}",
+                  "replay_payload": {"property": "C12", "grammar": ['o = *"z" "a"', 'w = 1*( %x21-7E / %x80-10FFFF )', 'q = [ "ab" ] *"b"',
+                                                                    't = 2*3( "ab" / %xD800 ) [ "a" ]'], **u}})
     # work bound on the constructs the library memoises: literal-match calls must stay linear in the input length
     for pr in d.get("memo_probes", []):
         bad = [r for r in pr["rows"] if r[1] > 16 * (r[0] + 1) or r[2] in ("budget", "RecursionError")]
